@@ -1,5 +1,5 @@
 """Property -> rules map."""
-from . import rules_case
+from . import rules_case, lea_glue
 
 PROPS = {}
 
@@ -17,6 +17,27 @@ def prop(pid, text):
              "no case-sensitive lexical option. Decides the shape-visible necessary condition, not the behaviour.")
 def c16(cx):
     rules_case.run(cx)
+
+
+@prop("C01", "path-sensitive effect analysis (LEA) of every Lexer::lex_token path per mode: R-PROGRESS (each path consumes "
+             "input or changes the mode stack), R-PANIC (every panic LEA cannot refute is classified; mode/peek/"
+             "checkpoint assertions are decided), R-9XXX (no path reaches an internal-error emission), R-CKPT "
+             "(checkpoint typestate). Decides these shape-visible necessary conditions of totality, not linearity.")
+def c01(cx):
+    lea_glue.apply(cx, ["R-PROGRESS", "R-PANIC", "R-9XXX", "R-CKPT"])
+
+
+@prop("C04", "LEA rules R-NEWLINE (every consumed character that may be a line feed is followed by add_line() before "
+             "further consumption / token start / end of the step) and R-ADVANCE-EVIDENCE (advance_by counts are "
+             "dominated by look-ahead evidence on every path). Decides the line-table half; column arithmetic via C05.")
+def c04(cx):
+    lea_glue.apply(cx, ["R-NEWLINE", "R-ADVANCE-EVIDENCE"])
+
+
+@prop("C06", "LEA rules R-CHANNEL (constant channel/type sets of every emission satisfy the channel policy of the "
+             "property; ExpectSymbol pairs checked at their constructors) and R-ADVANCE-EVIDENCE.")
+def c06(cx):
+    lea_glue.apply(cx, ["R-CHANNEL", "R-ADVANCE-EVIDENCE"])
 
 
 def run(cx):
